@@ -961,6 +961,10 @@ func indexGuard(p *Prog, at ssa.Instruction, coll, idx ssa.Value) string {
 			}
 		}
 	}
+	// ring cursor: i starts at 0 and is advanced by one, wrapping to 0 when it reaches len(x); len(x) > 0
+	if n, ok := lowerBoundOnLen(at, coll); ok && n >= 1 && ringCursor(idx, coll) {
+		return "index is a ring cursor (0, then +1, reset to 0 when it reaches len), len > 0"
+	}
 	// i % len(x) under len(x) != 0
 	if bo, ok := idx.(*ssa.BinOp); ok && bo.Op == token.REM && lenOf(bo.Y, coll) {
 		if n, ok := lowerBoundOnLen(at, coll); ok && n >= 1 && isUnsignedOrNonNeg(bo.X) {
@@ -1274,6 +1278,59 @@ func searchCursorGuard(x *ssa.Slice) string {
 		}
 	}
 	return "bounds are a search cursor (0, then past each match of Index*(s[cursor:])) and a match offset found from it, both within the sliced value"
+}
+
+// ringCursor: idx is a loop-carried value whose every incoming value is the constant 0 or (a cursor value + 1) on an
+// edge where that sum is known to differ from / be below len(coll): by induction idx < len(coll) whenever len > 0.
+func ringCursor(idx, coll ssa.Value) bool {
+	root, ok := idx.(*ssa.Phi)
+	if !ok {
+		return false
+	}
+	inCycle := map[*ssa.Phi]bool{}
+	var collect func(p *ssa.Phi, d int)
+	collect = func(p *ssa.Phi, d int) {
+		if inCycle[p] || d > 4 {
+			return
+		}
+		inCycle[p] = true
+		for _, e := range p.Edges {
+			if q, isPhi := e.(*ssa.Phi); isPhi {
+				collect(q, d+1)
+			}
+		}
+	}
+	collect(root, 0)
+	for p := range inCycle {
+		for i, e := range p.Edges {
+			if k, isK := ConstInt(e); isK && k == 0 {
+				continue
+			}
+			if q, isPhi := e.(*ssa.Phi); isPhi && inCycle[q] {
+				continue
+			}
+			bo, isB := e.(*ssa.BinOp)
+			if !isB || bo.Op != token.ADD {
+				return false
+			}
+			one, isOne := ConstInt(bo.Y)
+			base, isBase := bo.X.(*ssa.Phi)
+			if !isOne || one != 1 || !isBase || !inCycle[base] {
+				return false
+			}
+			// on this edge the sum is not len(coll) (it was tested and the equal case resets to 0), or is below it
+			guarded := factsImply(edgeCmpFacts(p.Block().Preds[i], p.Block()), func(f Fact) bool {
+				if f.X == ssa.Value(bo) && isLenValue(f.Y, coll) && (f.Op == token.NEQ || f.Op == token.LSS) {
+					return true
+				}
+				return f.Y == ssa.Value(bo) && isLenValue(f.X, coll) && (f.Op == token.NEQ || f.Op == token.GTR)
+			})
+			if !guarded {
+				return false
+			}
+		}
+	}
+	return true
 }
 
 // readCountGuard: buf[:n] with n the byte count returned by a read into buf (io.ReadFull / ReadAtLeast, a Read
